@@ -17,6 +17,13 @@ fn main() {
         std::process::exit(2);
     }
     let id = args[1].to_uppercase();
+    // fuzz-support subcommands: <ID> corpus <dir> | artifact <file> | classify <dir>
+    if matches!(args[2].as_str(), "corpus" | "artifact" | "classify") {
+        runner::install_panic_hook();
+        let seed: u64 = std::env::var("VERIF_SEED").ok().and_then(|s| s.trim().parse::<i128>().ok()).map(|v| v as u64).unwrap_or(0);
+        let path = std::path::PathBuf::from(args.get(3).cloned().unwrap_or_default());
+        std::process::exit(props::fuzz_support::run(&id, &args[2], &path, seed));
+    }
     let tier = match args[2].as_str() {
         "quick" => Tier::Quick,
         "thorough" => Tier::Thorough,
